@@ -41,9 +41,16 @@ class SyncRun:
 
     flavour = "sync"
 
-    def __init__(self, fmt):
+    def __init__(self, fmt, initial_fs=None):
         self.fmt = fmt
-        self.world = World({"version": "2.2", "persistence": fmt, "cb": None})
+        # the very first scheduled save runs inside start_persistence(); it can be faulted like any other
+        if initial_fs is not None:
+            initial_fs.install()
+        try:
+            self.world = World({"version": "2.2", "persistence": fmt, "cb": None})
+        finally:
+            if initial_fs is not None:
+                initial_fs.uninstall()
         self.gw = self.world.gw
         self.dir = self.world.dir
 
@@ -84,7 +91,7 @@ class AsyncRun:
 
     flavour = "async"
 
-    def __init__(self, fmt):
+    def __init__(self, fmt, initial_fs=None):
         from mysensors.gateway_serial import AsyncSerialGateway
 
         install_shims()
@@ -94,7 +101,13 @@ class AsyncRun:
         self.gw = AsyncSerialGateway("/dev/verif", persistence=True, persistence_file=os.path.join(self.dir, f"p.{fmt}"), protocol_version="2.2")
         self.start_task = self.loop.start(self.gw.start_persistence())
         self.loop.complete_executor(0)  # safe_load_sensors
-        self.loop.complete_executor(0)  # first scheduled save
+        if initial_fs is not None:
+            initial_fs.install()
+        try:
+            self.loop.complete_executor(0)  # first scheduled save
+        finally:
+            if initial_fs is not None:
+                initial_fs.uninstall()
         if not self.start_task.done() or self.start_task.exception():
             raise HarnessError("async start_persistence did not complete")
 
@@ -144,6 +157,13 @@ class AsyncRun:
         shutil.rmtree(self.dir, ignore_errors=True)
 
 
+def record_initial_ops(flavour, fmt):
+    fs = FaultFS("record")
+    run = (SyncRun if flavour == "sync" else AsyncRun)(fmt, fs)
+    run.close()
+    return list(fs.ops)
+
+
 def record_ops(flavour, fmt):
     """Operation logs of the four scheduled saves of an unfaulted run."""
     run = (SyncRun if flavour == "sync" else AsyncRun)(fmt)
@@ -165,8 +185,30 @@ def run_scenario(scn):
     install_shims()
     viols = []
     replay = {"kind": "fault", "check": PROP, "scenario": list(scn)}
-    run = (SyncRun if flavour == "sync" else AsyncRun)(fmt)
     reached = False
+    if tick_at == -1:
+        fs0 = FaultFS("fail", op_at)
+        try:
+            run = (SyncRun if flavour == "sync" else AsyncRun)(fmt, fs0)
+        except Exception as exc:  # pylint: disable=broad-except
+            # the very first save is run by start_persistence() itself; an I/O error there may surface to the
+            # caller, but it must not be a different kind of failure
+            if isinstance(exc, HarnessError):
+                raise
+            return ([Violation(PROP, f"start-persistence-raises|{flavour}|{type(exc).__name__}", f"{scn}: start_persistence() raised {type(exc).__name__}: {short(str(exc))}", replay)] if not isinstance(exc, OSError) else []), fs0.injected
+        reached = fs0.injected
+        viols0 = []
+        if fs0.injected:
+            op = fs0.ops[op_at] if op_at < len(fs0.ops) else ("?",)
+            if not run.gw.tasks.persistence.need_save:
+                viols0.append(Violation(PROP, f"dirty-flag-cleared|{flavour}|initial|{op[0]}", f"{scn}: the initial save failed at {describe(op)} but the state is not marked unsaved", replay))
+            if not run.schedule_alive():
+                viols0.append(Violation(PROP, f"schedule-stopped|{flavour}|initial|{op[0]}", f"{scn}: the initial save failed at {describe(op)} and no periodic save is armed afterwards", replay))
+                run.close()
+                return viols0, reached
+        viols.extend(viols0)
+    else:
+        run = (SyncRun if flavour == "sync" else AsyncRun)(fmt)
     try:
         run.feed(BATCHES[0])
         saved_tree = ()  # what the last successful save wrote (the start-up save wrote the empty network)
@@ -246,6 +288,9 @@ def scenarios(tier):
         for fmt in ("json", "pickle"):
             logs = record_ops(flavour, fmt)
             oplens[f"{flavour}/{fmt}"] = [len(x) for x in logs]
+            init_ops = record_initial_ops(flavour, fmt)
+            for k in range(len(init_ops)):
+                scns.append((flavour, fmt, -1, k))
             for t, ops in enumerate(logs):
                 idxs = range(len(ops))
                 if False and tier == "quick" and len(ops) > 30:
